@@ -108,6 +108,7 @@ func runC07(c *report.Ctx) {
 	p := c.P
 	ruleSuspendResume(c)
 	ruleReadySet(c, true, false)
+	ruleQueueHeadroom(c) // a rescan that spans several batches is re-queued by a non-blocking push: the slot must exist
 
 	c.Rule("select-gate", "UseWallet selects a keystore only after CheckReady succeeded and reported ready", 1)
 	use := fn(c, pkgWallet, "WalletManager", "UseWallet")
